@@ -134,7 +134,7 @@ func history(c *harness.Ctx, id string, r *rand.Rand) {
 	}
 	start := epoch*spe + uint64(r.Intn(int(spe)))
 	// duties of this epoch and the next: few slots, 1-3 committees per slot, sizes from "always aggregator" to ~5%
-	sizes := []uint64{8, 31, 64, 128, 320}
+	sizes := []uint64{8, 31, 64, 128, 320, 2 * target, 2*target + 1, 3*target - 1, 3 * target} // incl. the sizes at which the selection modulus steps
 	mk := func(e uint64) []duty {
 		var ds []duty
 		slots := []uint64{e*spe + uint64(r.Intn(int(spe))), e*spe + uint64(r.Intn(int(spe))), e*spe + uint64(r.Intn(int(spe)))}
@@ -495,6 +495,27 @@ func history(c *harness.Ctx, id string, r *rand.Rand) {
 		aw.mu.Lock()
 		runs := append([]*attestationaggregator.Duty{}, aw.runs[before:]...)
 		aw.mu.Unlock()
+		// every committee of the slot for which a job was demanded is aggregated for, with that committee's attestation data
+		if hasDuty && attestedNow && !failSlots[s] {
+			for k, ad := range committees {
+				if ad == nil {
+					continue
+				}
+				data := &phase0.AttestationData{Slot: phase0.Slot(s), Index: phase0.CommitteeIndex(k), Source: &phase0.Checkpoint{Epoch: 1}, Target: &phase0.Checkpoint{Epoch: phase0.Epoch(s / spe)}}
+				data.BeaconBlockRoot[0] = byte(s)
+				root, _ := data.HashTreeRoot()
+				found := false
+				for _, run := range runs {
+					if uint64(run.Slot) == s && run.AttestationDataRoot == root {
+						found = true
+					}
+				}
+				if !found {
+					fail("aggregation-run-missing-for-committee", fmt.Sprintf("the aggregation jobs of slot %d have run; none of them aggregated the attestation data of committee %d, in which validator %d is a selected aggregator (%d runs in the slot)", s, k, ad.V, len(runs)))
+				}
+				c.Count("committees_with_aggregation_run_checked", 1)
+			}
+		}
 		for _, run := range runs {
 			ok := false
 			for _, d := range judge {
